@@ -60,6 +60,12 @@ func thoroughProbes() []string {
 	return []string{"holder_starved if lock_acquired", "all_other_tasks_blocked if lock_acquired", "preempt_in_rmw_fault if lock_acquired"}
 }
 
+// EnumSize implements core.Property: nothing is enumerated.
+func (Prop) EnumSize(tier string) int { return 0 }
+
+// RunEnum implements core.Property.
+func (Prop) RunEnum(i int, o core.RunOpts) *core.Result { return nil }
+
 // Prelude implements core.Property: refuses trees the simulator cannot schedule.
 func (Prop) Prelude(o core.RunOpts) *core.Result {
 	r := core.NewResult()
